@@ -23,10 +23,16 @@ inductive MemberOf (lib : Lib) : Path → Comp → Prop
       lib.find p = some d → (Ty.cls b, m) ∈ d.exts → MemberOf lib b k → MemberOf lib p k
 
 /-- `e` is an equation of class `p`, written there or in a (transitive) base class -/
-inductive MemberEq (lib : Lib) : Path → Expr × Expr → Prop
-  | own {p : Path} {d : ClassDef} {e : Expr × Expr} : lib.find p = some d → e ∈ d.eqs → MemberEq lib p e
-  | inh {p b : Path} {d : ClassDef} {m : List Mod} {e : Expr × Expr} :
+inductive MemberEq (lib : Lib) : Path → Eqn → Prop
+  | own {p : Path} {d : ClassDef} {e : Eqn} : lib.find p = some d → e ∈ d.eqs → MemberEq lib p e
+  | inh {p b : Path} {d : ClassDef} {m : List Mod} {e : Eqn} :
       lib.find p = some d → (Ty.cls b, m) ∈ d.exts → MemberEq lib b e → MemberEq lib p e
+
+/-- `e` is an initial equation of class `p`, written there or in a (transitive) base class -/
+inductive MemberIEq (lib : Lib) : Path → Eqn → Prop
+  | own {p : Path} {d : ClassDef} {e : Eqn} : lib.find p = some d → e ∈ d.ieqs → MemberIEq lib p e
+  | inh {p b : Path} {d : ClassDef} {m : List Mod} {e : Eqn} :
+      lib.find p = some d → (Ty.cls b, m) ∈ d.exts → MemberIEq lib b e → MemberIEq lib p e
 
 /-- `ms` is the modification list of an extends clause of `p` or of a (transitive) base class -/
 inductive ExtClauseOf (lib : Lib) : Path → List Mod → Prop
